@@ -254,7 +254,9 @@ class BaseClient:
                     if event.new_state != initial:
                         release = True
 
-            if release:
+            if release and not lock.is_set():
+                # keep the first matching event: more events may arrive
+                # before the waiting coroutine gets to run
                 result.event = event
                 lock.set()
 
